@@ -445,8 +445,11 @@ impl Prop for C04 {
         }
         let kinds: Vec<ReplyKind> = conv.cmds.iter().map(|sc| sc.cmd.reply_kind()).collect();
         let d = decode_output(&o.out, &kinds);
-        // the big message must be present as ONE logical message of exactly the intended size
-        if big_len >= 100 && !d.msgs.iter().any(|m| m.payload.len() == big_len) {
+        // the big message must be present as ONE logical message of exactly the intended size (for
+        // a column definition only "at least": its fields beyond table, name, type and flags -
+        // org_table, org_name, character set, display length - are the library's to fill)
+        let present = if matches!(case.assembly, Assembly::ColName) { d.msgs.iter().any(|m| m.payload.len() >= big_len && m.payload.len() < 2 * big_len + 64) } else { d.msgs.iter().any(|m| m.payload.len() == big_len) };
+        if big_len >= 100 && !present {
             let lens: Vec<usize> = d.msgs.iter().map(|m| m.payload.len()).filter(|&l| l > big_len / 4).collect();
             let phys: Vec<usize> = d.phys.iter().map(|p| p.len).filter(|&l| l > big_len / 8).collect();
             ex.fail(
